@@ -1422,6 +1422,12 @@ func (r *Run) invokeOn(g *G, fr *Frame, fnv Value, args []Value, retSlot int, is
 		if red, ok := r.eng.redirects[fn.String()]; ok {
 			fn = red
 		}
+		if r.runRedirects != nil {
+			if rc, ok := r.runRedirects[fn.String()]; ok {
+				f = rc
+				fn = rc.fn
+			}
+		}
 		if in, ok := intrinsics[fn.String()]; ok {
 			res, act := in(r, g, args)
 			switch act {
